@@ -17,7 +17,7 @@ use std::time::Duration;
 pub static INFO: PropInfo = PropInfo {
     id: "C20",
     level: "exploration",
-    rule: "one evaluation = one session of the real NetcodeServerTransport and 1-5 NetcodeClientTransports over 127.0.0.1 UDP sockets, single-threaded with virtual durations, through an in-path relay (one front socket the clients believe is the server, one back socket per client) that applies a seeded schedule to the real datagrams: drop, duplicate, delay / reorder, replay of old datagrams, bit corruption; applications submit messages on all three channel kinds both ways, disconnect from either side / either layer at seeded ticks, and reconnect with the same client id; secure and unsecure authentication. Oracles: right after every NetcodeServerTransport::update the server has no disconnected-but-present connection, the message layer's connected ids equal the ids the transport has an address for, and both counts agree; ServerEvents per id alternate Connected/Disconnected starting with Connected; every application- or peer-initiated disconnect is visible on the other side within timeout + 1 s of virtual time; every obtained message is a byte-identical submission of the same client / channel, in order on ordered channels and at most once on reliable ones; in interference-only runs (every timeout window sees a genuine datagram delivered each way) no session ends unless an application asked for it; every datagram seen by the relay is <= 1400 bytes. Non-trivial = the relay interfered (drop/dup/delay/replay/corrupt) AND at least one client connected AND at least one disconnect was propagated; distinct = fingerprints of the session history (connects, disconnects, message counts). In half of the clean-relay runs one client (with an id of its own) is MUTED: the relay drops every server-to-client session datagram for it, so the server holds its session while the client is still answering the challenge; its application then disconnects (client or transport API) and the server side must be gone within 6 ticks. A quarter of the runs end their fault phase with a SERVER SHUTDOWN: 0-2 message-layer kicks (RenetServer::disconnect) are left pending and NetcodeServerTransport::disconnect_all is called in the same frame; the netcode layer must be empty at once, every session gets its ClientDisconnected and every client ends. At the end of every run the last event per id must agree with both layers. A third of the runs also have a HOST PLAYER: a local client of the same RenetServer (new_local_client, pumped with process_local_client every tick after the transport's send_packets) exchanging ordered messages with the server; it has no netcode session (excluded from the lock-step comparison), must never be reported disconnected, and its ordered streams must be complete and in order at the end of the run. One run in 16 is a VANISHED-SERVER run instead: one client (its UDP socket connected to the server's address in 2 of 3 runs) and a server transport, direct; after some traffic the server transport is dropped (socket closed) and the client, still being updated and still sending, must be disconnected within timeout + 1 s of virtual time. During the fault phase the client limit is changed at run time now and then (set_max_clients(1..8), also below the number connected): the lock-step comparison must keep holding, nobody loses a session for it. A quarter of the runs with two or more clients are CROWDED: one slot too few at first, so somebody is denied; the relay holds half of the ConnectionDenied datagrams back, the server application frees a slot at tick 10, and a client that got in afterwards is shown its stale denial, which must not end its session.",
+    rule: "one evaluation = one session of the real NetcodeServerTransport and 1-5 NetcodeClientTransports over 127.0.0.1 UDP sockets, single-threaded with virtual durations, through an in-path relay (one front socket the clients believe is the server, one back socket per client) that applies a seeded schedule to the real datagrams: drop, duplicate, delay / reorder, replay of old datagrams, bit corruption; applications submit messages on all three channel kinds both ways, disconnect from either side / either layer at seeded ticks, and reconnect with the same client id; secure and unsecure authentication. Oracles: right after every NetcodeServerTransport::update the server has no disconnected-but-present connection, the message layer's connected ids equal the ids the transport has an address for, and both counts agree; ServerEvents per id alternate Connected/Disconnected starting with Connected; every application- or peer-initiated disconnect is visible on the other side within timeout + 1 s of virtual time; every obtained message is a byte-identical submission of the same client / channel, in order on ordered channels and at most once on reliable ones; in interference-only runs (every timeout window sees a genuine datagram delivered each way) no session ends unless an application asked for it; every datagram seen by the relay is <= 1400 bytes. Non-trivial = the relay interfered (drop/dup/delay/replay/corrupt) AND at least one client connected AND at least one disconnect was propagated; distinct = fingerprints of the session history (connects, disconnects, message counts). In half of the clean-relay runs one client (with an id of its own) is MUTED: the relay drops every server-to-client session datagram for it, so the server holds its session while the client is still answering the challenge; its application then disconnects (client or transport API) and the server side must be gone within 6 ticks. A quarter of the runs end their fault phase with a SERVER SHUTDOWN: 0-2 message-layer kicks (RenetServer::disconnect) are left pending and NetcodeServerTransport::disconnect_all is called in the same frame; the netcode layer must be empty at once, every session gets its ClientDisconnected and every client ends. At the end of every run the last event per id must agree with both layers. A third of the runs also have a HOST PLAYER: a local client of the same RenetServer (new_local_client, pumped with process_local_client every tick after the transport's send_packets) exchanging ordered messages with the server; it has no netcode session (excluded from the lock-step comparison), must never be reported disconnected, and its ordered streams must be complete and in order at the end of the run. One run in 16 is a VANISHED-SERVER run instead: one client (its UDP socket connected to the server's address in 2 of 3 runs) and a server transport, direct; after some traffic the server transport is dropped (socket closed) and the client, still being updated and still sending, must be disconnected within timeout + 1 s of virtual time. During the fault phase the client limit is changed at run time now and then (set_max_clients(1..8), also below the number connected): the lock-step comparison must keep holding, nobody loses a session for it. A quarter of the runs with two or more clients are CROWDED: one slot too few at first, so somebody is denied; the relay holds half of the ConnectionDenied datagrams back, the server application frees a slot at tick 10, and a client that got in afterwards is shown its stale denial, which must not end its session. One run in 20 is a TWO-SERVERS run: a token lists two servers sharing the private key on one host; the first (behind a relay socket) accepts the client and streams, but everything after its challenge is held back; the client fails over to the second server; then the held datagrams of the first are delivered from the first address: the client application must obtain only what the second server submitted.",
     assumptions: &[
         "single-threaded endpoints, loopback delivery is effectively synchronous; a datagram the relay misses arrives one tick later (a legal delay)",
         "bounds are on virtual time (durations passed to update), never wall-clock",
@@ -47,6 +47,7 @@ pub static INFO: PropInfo = PropInfo {
         ("client_limit_lowered_below_connected", 5),
         ("host_player_liveness_checked", 50),
         ("vanished_server_runs_connected_socket", 20),
+        ("two_servers_stale_datagrams_released", 20),
         ("shutdown_message_layer_kick_pending", 10),
     ],
     engines_quick: &["e1"],
@@ -384,10 +385,136 @@ fn vanished_server_run(ctx: &Ctx, out: &mut Outcome, run_seed: u64, r: &mut Rng)
     );
 }
 
+/// A token lists two servers that share the private key (same host, two ports). The first one - reached through a
+/// small relay socket - accepts the client and streams to it, but everything it sends after the challenge is held
+/// back, so the client fails over to the second server and connects there. Then the first server's held datagrams
+/// are delivered after all (from the first address). They belong to another connection: the client application must
+/// obtain only what the second server submitted.
+fn two_servers_run(ctx: &Ctx, out: &mut Outcome, run_seed: u64, r: &mut Rng) {
+    let timeout_s: i32 = *r.pick(&[1i32, 2]);
+    let dt: u64 = *r.pick(&[16u64, 50]);
+    let mut key = [0u8; 32];
+    r.fill(&mut key);
+    let protocol = r.next_u64();
+    let (s1sock, s2sock, relay, csock) = match (bind(), bind(), bind(), bind()) {
+        (Ok(a), Ok(b), Ok(c), Ok(d)) => (a, b, c, d),
+        _ => return out.inconclusive("C20: cannot bind loopback UDP sockets"),
+    };
+    let (s1_addr, s2_addr, relay_addr, c_addr) = (s1sock.local_addr().unwrap(), s2sock.local_addr().unwrap(), relay.local_addr().unwrap(), csock.local_addr().unwrap());
+    let mk = |addr: SocketAddr, sock: UdpSocket| {
+        NetcodeServerTransport::new(
+            ServerConfig { current_time: Duration::ZERO, max_clients: 4, protocol_id: protocol, public_addresses: vec![addr], authentication: ServerAuthentication::Secure { private_key: key } },
+            sock,
+        )
+    };
+    // server ONE is known to clients by the relay's address
+    let (mut st1, mut st2) = match (mk(relay_addr, s1sock), mk(s2_addr, s2sock)) {
+        (Ok(a), Ok(b)) => (a, b),
+        _ => return out.inconclusive("C20: server transports"),
+    };
+    let mut srv1 = RenetServer::new(conn_cfg(100));
+    let mut srv2 = RenetServer::new(conn_cfg(100));
+    let id = 815u64;
+    let m = nsim::mint(r, 0, protocol, 600, id, timeout_s, &[relay_addr, s2_addr], None, &key);
+    let mut ct = match NetcodeClientTransport::new(Duration::ZERO, ClientAuthentication::Secure { connect_token: m.token }, csock) {
+        Ok(t) => t,
+        Err(e) => return out.inconclusive(&format!("C20: client transport: {:?}", e)),
+    };
+    let mut client = RenetClient::new(conn_cfg(100));
+    let d = Duration::from_millis(dt);
+    let mut held: Vec<Vec<u8>> = Vec::new();
+    let mut from_two: Vec<Vec<u8>> = Vec::new();
+    let mut buf = [0u8; 2048];
+    let mut log: Vec<String> = vec![format!("server ONE behind relay {}, server TWO at {}, client {}, timeout {} s, tick {} ms", relay_addr, s2_addr, c_addr, timeout_s, dt)];
+    let mut released = false;
+    let mut connected_two_at: Option<u64> = None;
+    let ticks = (timeout_s as u64 * 1000 * 3 + 3000) / dt;
+    for tick in 0..ticks {
+        // applications: both servers stream to the client as soon as they hold its session
+        if srv1.is_connected(id) && !released {
+            srv1.send_message(id, CH_U, Bytes::from(payload::make(1, 1, CH_U, 1, tick, 60, 0x0E1)));
+            srv1.send_message(id, CH_RO, Bytes::from(payload::make(1, 1, CH_RO, 1, tick, 60, 0x0E1)));
+        }
+        if srv2.is_connected(id) {
+            for ch in [CH_U, CH_RO] {
+                let b = payload::make(2, 1, ch, 2, from_two.len() as u64, 60, 0x0E2);
+                from_two.push(b.clone());
+                srv2.send_message(id, ch, Bytes::from(b));
+            }
+        }
+        srv1.update(d);
+        srv2.update(d);
+        let _ = st1.update(d, &mut srv1);
+        let _ = st2.update(d, &mut srv2);
+        client.update(d);
+        let _ = ct.update(d, &mut client);
+        st1.send_packets(&mut srv1);
+        st2.send_packets(&mut srv2);
+        let _ = ct.send_packets(&mut client);
+        // the relay in front of server ONE
+        while let Ok((n, from)) = relay.recv_from(&mut buf) {
+            if from == c_addr {
+                let _ = relay.send_to(&buf[..n], s1_addr);
+            } else if from == s1_addr {
+                if n > 0 && (buf[0] & 0xF) == 2 {
+                    let _ = relay.send_to(&buf[..n], c_addr); // the challenge gets through
+                } else if held.len() < 400 {
+                    held.push(buf[..n].to_vec());
+                }
+            }
+        }
+        if client.is_connected() && srv2.is_connected(id) && connected_two_at.is_none() {
+            connected_two_at = Some(tick);
+            log.push(format!("tick {tick}: client connected to server TWO; {} datagrams of server ONE are held back", held.len()));
+        }
+        // a little later the held datagrams of server ONE arrive after all, from the first address
+        if let Some(t0) = connected_two_at {
+            if !released && tick >= t0 + 3 {
+                released = true;
+                out.count("two_servers_stale_datagrams_released");
+                out.add("two_servers_stale_datagrams", held.len() as u64);
+                for b in held.iter() {
+                    let _ = relay.send_to(b, c_addr);
+                }
+            }
+        }
+        for ch in [CH_U, CH_RO] {
+            while let Some(msg) = client.receive_message(ch) {
+                out.count("two_servers_messages_obtained");
+                out.eval(mix(&[0x25, run_seed, crate::rng::fnv1a(&msg)]), true);
+                if !from_two.iter().any(|x| x[..] == msg[..]) {
+                    let h = payload::parse(&msg);
+                    log.push(format!("tick {tick}: obtained on channel {ch} a message that server TWO never submitted (header {:?})", h.map(|h| (h.conn, h.flags, h.idx))));
+                    out.violation(
+                        ctx,
+                        "C20/e2e/obtained-from-other-server",
+                        "every message an application obtains from a connection was submitted by the peer of that same connection",
+                        format!("the client, connected to the second server of its token, obtained a {}-byte message that only the first server (another connection, same token keys, other address) had submitted", msg.len()),
+                        json!({"property": "C20", "engine": ctx.engine, "run_seed": format!("{:#x}", run_seed), "mode": "two-servers", "log": log}),
+                    );
+                    return;
+                }
+            }
+        }
+        if released && tick >= connected_two_at.unwrap() + 12 {
+            break;
+        }
+    }
+    if connected_two_at.is_some() {
+        out.count("two_servers_runs");
+    } else {
+        out.count("two_servers_runs_void");
+        out.eval(mix(&[0x26, run_seed]), false);
+    }
+}
+
 fn one_run_inner(ctx: &Ctx, out: &mut Outcome, run_seed: u64) {
     let mut r = Rng::new(run_seed);
     if ctx.replay_mode.as_deref() == Some("vanished-server") || (ctx.replay_mode.is_none() && r.below(16) == 0) {
         return vanished_server_run(ctx, out, run_seed, &mut r);
+    }
+    if ctx.replay_mode.as_deref() == Some("two-servers") || (ctx.replay_mode.is_none() && r.below(20) == 0) {
+        return two_servers_run(ctx, out, run_seed, &mut r);
     }
     let secure = r.chance(3, 4);
     let timeout_s: i32 = if secure { *r.pick(&[2i32, 3, 5]) } else { 15 };
